@@ -3,7 +3,7 @@
 patch=$1; prop=$2; tier=${3:-quick}
 git -C /repo diff --quiet || { echo "/repo has uncommitted changes"; exit 2; }
 git -C /repo apply "$patch" || exit 2
-cd "$(dirname "$0")/.." && ./check "$prop" "$tier" > build/seed_$prop.log 2>&1; rc=$?
+cd "$(dirname "$0")/.." && cp evidence/$prop.json build/evidence_$prop.bak 2>/dev/null; ./check "$prop" "$tier" > build/seed_$prop.log 2>&1; rc=$?; cp build/evidence_$prop.bak evidence/$prop.json 2>/dev/null
 git -C /repo checkout -- .
 tail -4 build/seed_$prop.log
 echo "exit=$rc"
